@@ -495,7 +495,7 @@ def build_ocaml():
         if os.path.exists(exe) and os.path.exists(stamp) and open(stamp).read() == h.hexdigest():
             return True, 'cached'
         os.makedirs(OCAML_DIR, exist_ok=True)
-        ok, log, dt = coq_make(['model/FrameDec.vo', 'model/Matcher.vo', 'model/FrameEnc.vo', 'model/IoNoStd.vo', 'model/BitRev64.vo', 'model/SeqEnc.vo', 'model/FseEnc.vo', 'model/SeqSection.vo', 'model/LitEnc.vo', 'model/BlockEnc.vo', 'model/FseNorm.vo', 'model/WeightEnc.vo', 'model/HufCounts.vo'])
+        ok, log, dt = coq_make(['model/FrameDec.vo', 'model/Matcher.vo', 'model/FrameEnc.vo', 'model/IoNoStd.vo', 'model/BitRev64.vo', 'model/SeqEnc.vo', 'model/FseEnc.vo', 'model/SeqSection.vo', 'model/LitEnc.vo', 'model/BlockEnc.vo', 'model/FseNorm.vo', 'model/WeightEnc.vo', 'model/HufCounts.vo', 'model/LitComp.vo'])
         if not ok:
             return False, log[-1500:]
         rc, out, err, dt = run(['coqc', '-Q', COQ, 'Zrs', os.path.join(COQ, 'extract', 'Extract.v')], cwd=OCAML_DIR, timeout=600)
@@ -515,13 +515,13 @@ def build_ocaml():
         return True, 'built'
 
 
-def model_run(sub, lines, timeout=1800, jobs=12):
+def model_run(sub, lines, timeout=1800, jobs=12, per_job=4):
     """run the extracted model on the lines (sharded over processes); returns list of result lines"""
     exe = os.path.join(OCAML_DIR, 'driver')
     if not lines:
         return []
     import concurrent.futures
-    n = max(1, min(jobs, len(lines) // 4 or 1))
+    n = max(1, min(jobs, len(lines) // per_job or 1))
     chunks = [lines[i::n] for i in range(n)]
     def work(ch):
         data = ('\n'.join(ch) + '\n').encode()
@@ -530,8 +530,11 @@ def model_run(sub, lines, timeout=1800, jobs=12):
         if res and res[-1] == '':
             res.pop()
         return res
+    t0 = time.time()
     with concurrent.futures.ThreadPoolExecutor(max_workers=n) as ex:
         outs = list(ex.map(work, chunks))
+    if os.environ.get('VERIF_TIMING'):
+        sys.stderr.write('[timing] model %s: %d lines, %d jobs, %.1fs\n' % (sub, len(lines), n, time.time() - t0))
     res = [None] * len(lines)
     for k, o in enumerate(outs):
         idxs = list(range(k, len(lines), n))
